@@ -111,6 +111,12 @@ CHECKS = {
         "Trusted: library dataclass equality vs Python identity; RealProcessor; reference evaluator.",
         "DESIGN.md 3 C15",
     ),
+    "C09": (
+        "exhaustive enumeration of call histories over a shared pool of live relations; deep fingerprints before/after the last action",
+        "All histories up to length 3 (thorough 4) of factory calls, compile, execute, Processor.process and Diagnostics over a shared pool (both engines): the deep fingerprint of every older relation (structure, columns, bounds, str, repr, hash, pairwise equality, leaf payload content) must be unchanged by the last action, repeated compile/execute must agree, every relation must be hashable, and a replay on the same leaves must give equal relations with equal hashes.",
+        "Trusted: fingerprint walker; materialization payload slots excluded (owned by C07/C10); actions address the leaves and the two newest members.",
+        "DESIGN.md 3 C09",
+    ),
 }
 
 NOT_YET = "check not built yet in this revision (planned, see DESIGN.md section 3)"
